@@ -2,6 +2,7 @@
 import ckprop
 import genck
 from ckprop import run_impl, model_view, shrink_candidates  # noqa: F401
+import directed
 
 DESCRIPTION = ("Lean: Props/C01.lean (body entered <-> DNF of the precondition groups holds; no capture, contract's "
                "error otherwise), for all group lists and oracles. Tie: real decorated callables of every kind vs the model.")
@@ -18,8 +19,13 @@ NEIGHBOURS = [{"from": "C04", "limit": 400, "why": "inherited precondition group
               {"from": "C18", "tags": ["hist"], "limit": 700, "why": "callables below foreign functools.wraps decorators and late class decorations keep their preconditions"}]
 
 
+run_directed = directed.run
+
+
 def cases(tier, rng):
     thorough = tier == "thorough"
+    for c in directed.falsy_and_truthy_values_cases():
+        yield "directed-falsy-and-truthy-values", c
     mg = 3 if thorough else 2
     for c in genck.exhaustive_pre(genck.KINDS, [False, True], 3, mg,
                                   with_post=(False, True), with_snap=(False, True)):
